@@ -366,7 +366,8 @@ MANIFEST = dict(
           'requests of each slice and proves tiling/ordering/L2-units-cover-L1 on them; each request is built by the '
           'real SynthDef from synthesised Python functions whose bodies route every parameter channel to a distinct bus; '
           'TLC validates decoded bytes, received signals, variant blocks and the /s_new pairs of SynthDef.__call__ '
-          '(NRT score) against the layout. Long requests (<=40 parameters, LagControl clumps) come from TLC -simulate.'),
+          '(NRT score) against the layout; every definition object is serialised repeatedly (as_bytes / write / store) and '
+          'each serialisation must be the same function of the request, refused variants leaving no trace. Long requests (<=40 parameters, LagControl clumps) come from TLC -simulate.'),
     note=('Decided: build result for every generated request (bounded exhaustively for <=2 parameters over the stated '
           'alphabets, <=3 with reduced alphabets, sampled beyond); default values include 0, 0.0, False/True, negatives and the '
           'spec default itself, with and without a metadata spec (an explicit default always wins). Not decided: defaults '
